@@ -147,6 +147,88 @@ class RunVerdict(Target):
                 ('final-stage-completes-only-with-a-finished-leaf', Implies(st.final_stage, leaf_ok))]
 
 
+class RunStageLoop(Target):
+    """The stage loop of Controller.run (slice: the closure get_active_components, the `while True` loop and its handlers).
+    PARTIAL correctness of 'the stage loop terminates with every component of the stage in a final state': the loop is
+    left normally only when no node of the stage is active any more (every node observed in finishedCheck, every loop
+    placeholder done or in a final state); every pass calls the scheduler before it waits; an unexpected error stops the
+    components (handleError) and is re-raised; after a normal exit the remaining components are stopped exactly once.
+    The environment (other threads) finishes components while the loop waits -- at most 3 waits (fairness bound)."""
+    prop = 'C02'
+    name = 'Controller.run[stage loop]'
+    file = CT
+    qualname = 'Controller.run'
+    slice = ('inactive_states = [', 'this_stage_components = self.get_components_in_stage(stage_idx)', False)
+    inline_class = {'this': (CT, 'Controller')}
+    trusted = ["finishedCheck adds a node to comp_done when its component reached a final state (C01 / C02 targets above)",
+               "threading.Event wait/clear"]
+    assumptions = ["2 nodes and <= 1 loop placeholder in the stage; each wait lets any subset of the active nodes finish; "
+                   "after the third wait everything has finished (fairness bound; termination itself is NOT decided)"]
+
+    def setup(self, c):
+        g = c.ghost
+        g['order'] = []
+        g['handled'] = []
+        g['stopped'] = 0
+        names = ['stage0.a', 'stage0.b']
+        done = set(n for n in names if c.one_of('%s.done_at_entry' % n, [False, True]))
+        has_ph = c.one_of('loop_placeholder', [False, True])
+        ph_state = {'v': codes.RUNNING_STATE}
+        stop = c.one_of('stop_executing', [False, True])
+        sched_fails = c.one_of('_schedule', ['ok', 'raises'])
+        waits = {'n': 0}
+
+        def wait(c, t=None):
+            waits['n'] += 1
+            g['order'].append('wait')
+            if waits['n'] > 6:
+                # everything has finished three waits ago: a loop that is still waiting never ends
+                c.raise_(RuntimeError, 'the stage loop keeps waiting although no node of the stage is active')
+            last = waits['n'] >= 3
+            for n in names:
+                if n not in done and (last or c.one_of('wait%d: %s finishes' % (waits['n'], n), [False, True])):
+                    done.add(n)
+            if has_ph and ph_state['v'] == codes.RUNNING_STATE and (last or c.one_of('wait%d: placeholder resolves' % waits['n'], [False, True])):
+                ph_state['v'] = c.one_of('placeholder_final_state', [codes.FINISHED_STATE, codes.FAILED_STATE, codes.SHUTDOWN_STATE])
+            return True
+
+        def schedule(c, **k):
+            g['order'].append('schedule')
+            if sched_fails == 'raises' and g['order'].count('schedule') == 2:
+                c.raise_(RuntimeError, 'scheduler blew up')
+        this = Obj('controller', comp_lock=threading.RLock(), log=NULLLOG, comp_done=done, stop_executing=stop,
+                   components=['c-a', 'c-b'],
+                   get_nodes_in_stage=Extern('get_nodes_in_stage', lambda c, i: list(names)),
+                   _get_placeholder_nodes_in_stage=Extern('_get_placeholder_nodes_in_stage', lambda c, i: ['stage0.ph'] if has_ph else []),
+                   get_node_state=Extern('get_node_state', lambda c, n: ph_state['v']),
+                   _schedule=Extern('_schedule', schedule),
+                   _event_scheduler=Obj('event', wait=Extern('Event.wait', wait), clear=Extern('Event.clear', lambda c: None)),
+                   handleError=Extern('handleError', lambda c, err, where: g['handled'].append(where)),
+                   _stopComponents=Extern('_stopComponents', lambda c, comps, flag: g.__setitem__('stopped', g['stopped'] + 1)))
+        return State(kwargs={'self': this, 'stage_idx': 0, 'matchedComponents': []}, this=this, names=names, done=done, has_ph=has_ph,
+                     ph_state=ph_state, sched_fails=sched_fails)
+
+    def externs(self, c, st):
+        return {'traceback.format_exc': Extern('traceback.format_exc', lambda c: '<tb>')}
+
+    def ensures(self, c, st, out):
+        g = c.ghost
+        order = g['order']
+        if out.kind == 'raise':
+            return [('an-unexpected-error-stops-the-components-and-is-re-raised',
+                     st.sched_fails == 'raises' and out.raised(RuntimeError) and len(g['handled']) == 1 and g['stopped'] == 0)]
+        all_done = all(n in st.done for n in st.names)
+        ph_ok = (not st.has_ph) or ('stage0.ph' in st.done) or st.ph_state['v'] in (codes.FINISHED_STATE, codes.FAILED_STATE, codes.SHUTDOWN_STATE)
+        waits_after_schedule = all(i > 0 and order[i - 1] == 'schedule' for i, e in enumerate(order) if e == 'wait')
+        return [('the-loop-ends-only-when-no-node-of-the-stage-is-active', all_done and ph_ok),
+                ('every-pass-schedules-before-it-waits', waits_after_schedule),
+                ('remaining-components-are-stopped-once-after-the-loop', g['stopped'] == 1),
+                ('an-unexpected-error-stops-the-components-and-is-re-raised', len(g['handled']) == 0)]
+
+    def cross_compare(self, *a):
+        return []
+
+
 class FinishedCheckOnFailure(Target):
     """when a component of the current stage failed, no component of that stage may be left neither submitted nor
     finalised (it would never reach a final state: the scheduler does not submit after a failure)"""
@@ -294,5 +376,6 @@ class UniqueOutcome(Lemma):
                 ('no-unrecoverable-exit-no-failure-of-its-own', Implies(And(args[0]), Not(x)))]
 
 
-TARGETS = [TransitionToFinalState(), PostMortem(), FinishedCheckOnFailure(), StageStateRule(), RunVerdict(), ScheduleShutdownRule(), FakeFinish()]
+TARGETS = [TransitionToFinalState(), PostMortem(), FinishedCheckOnFailure(), StageStateRule(), RunStageLoop(), RunVerdict(), ScheduleShutdownRule(),
+           FakeFinish()]
 LEMMAS = [UniqueOutcome()]
